@@ -99,91 +99,119 @@ theorem prune_typesOnly (o : Opts) (d : BDep) (hk : o.kind = .TypesOnly)
 theorem checkSpecifier_same (st : St) (s : Spec) : checkSpecifier st s s = st := by
   simp [checkSpecifier]
 
+theorem redirects_dropPending (st : St) (req : Spec) : (dropPending st req).redirects = st.redirects := by
+  unfold dropPending; split <;> rfl
+
+theorem lookup_of_any (l : List (Spec × Spec)) (req : Spec) (h : l.any (·.1 == req) = true) :
+    ∃ t, l.lookup req = some t := by
+  induction l with
+  | nil => simp at h
+  | cons a l ih =>
+    obtain ⟨k, v⟩ := a
+    by_cases hkr : (req == k) = true
+    · exact ⟨v, by simp [List.lookup, hkr]⟩
+    · have hkr' : (req == k) = false := by simpa using hkr
+      have hk : (k == req) = false := by
+        simp only [beq_eq_false_iff_ne, ne_eq] at hkr' ⊢
+        exact fun h => hkr' h.symm
+      simp only [List.any_cons, hk, Bool.false_or] at h
+      obtain ⟨t, ht⟩ := ih h
+      exact ⟨t, by simp [List.lookup, hkr', ht]⟩
+
+theorem any_of_lookup (l : List (Spec × Spec)) (req t0 : Spec) (h : l.lookup req = some t0) :
+    l.any (·.1 == req) = true := by
+  induction l with
+  | nil => simp [List.lookup] at h
+  | cons a l ih =>
+    obtain ⟨k, v⟩ := a
+    simp only [List.lookup] at h
+    split at h
+    · rename_i hk
+      simp only [List.any_cons, Bool.or_eq_true]
+      left
+      simp only [beq_iff_eq] at hk ⊢
+      exact hk.symm
+    · simp only [List.any_cons, Bool.or_eq_true]
+      right
+      exact ih h
+
+theorem lookup_append_new (l : List (Spec × Spec)) (req tgt : Spec) (h : l.any (·.1 == req) = false) :
+    (l ++ [(req, tgt)]).lookup req = some tgt := by
+  induction l with
+  | nil => simp [List.lookup]
+  | cons a l ih =>
+    obtain ⟨k, v⟩ := a
+    simp only [List.any_cons, Bool.or_eq_false_iff] at h
+    have hk' : (req == k) = false := by
+      have := h.1
+      simp only [beq_eq_false_iff_ne, ne_eq] at this ⊢
+      exact fun hh => this hh.symm
+    simp only [List.cons_append, List.lookup, hk']
+    exact ih h.2
+
 /-- **every loader redirect is recorded** … -/
 theorem checkSpecifier_records (st : St) (req tgt : Spec) (h : req ≠ tgt) :
     ∃ t, (checkSpecifier st req tgt).redirects.lookup req = some t := by
-  unfold checkSpecifier
+  unfold checkSpecifier recordRedirect
   have hne : (req == tgt) = false := by simpa using h
   simp only [hne, Bool.false_eq_true, if_false]
-  -- the pending-slot removal does not touch `redirects`
-  have key : ∀ st' : St, st'.redirects = st.redirects →
-      ∃ t, (if st'.redirects.any (·.1 == req) then st'
-            else { st' with redirects := st'.redirects ++ [(req, tgt)] }).redirects.lookup req = some t := by
-    intro st' hr
-    by_cases hany : st'.redirects.any (·.1 == req) = true
-    · simp only [hany, if_true]
-      obtain ⟨p, hp, hk⟩ := List.any_eq_true.mp hany
-      -- an association list that mentions the key has a lookup result
-      have : ∀ l : List (Spec × Spec), (∃ p ∈ l, (p.1 == req) = true) → ∃ t, l.lookup req = some t := by
-        intro l
-        induction l with
-        | nil => rintro ⟨p, hp, _⟩; cases hp
-        | cons a l ih =>
-          rintro ⟨p, hp, hk⟩
-          obtain ⟨k, v⟩ := a
-          by_cases hkr : (req == k) = true
-          · exact ⟨v, by simp [List.lookup, hkr]⟩
-          · have hkr' : (req == k) = false := by simpa using hkr
-            rcases List.mem_cons.mp hp with rfl | hp
-            · simp only [beq_iff_eq] at hk hkr'
-              exact absurd hk.symm (by simpa using hkr')
-            · obtain ⟨t, ht⟩ := ih ⟨p, hp, hk⟩
-              exact ⟨t, by simp [List.lookup, hkr', ht]⟩
-      exact this _ ⟨p, hp, hk⟩
-    · simp only [hany, Bool.false_eq_true, if_false]
-      refine ⟨tgt, ?_⟩
-      have hall : ∀ p ∈ st'.redirects, (p.1 == req) = false := by
-        intro p hp
-        by_cases hh : (p.1 == req) = true
-        · exact absurd (List.any_eq_true.mpr ⟨p, hp, hh⟩) hany
-        · simpa using hh
-      have : ∀ l : List (Spec × Spec), (∀ p ∈ l, (p.1 == req) = false) →
-          (l ++ [(req, tgt)]).lookup req = some tgt := by
-        intro l
-        induction l with
-        | nil => intro _; simp [List.lookup]
-        | cons a l ih =>
-          intro hl
-          obtain ⟨k, v⟩ := a
-          have hk : (k == req) = false := hl (k, v) List.mem_cons_self
-          have hk' : (req == k) = false := by
-            simp only [beq_eq_false_iff_ne, ne_eq] at hk ⊢
-            exact fun h => hk h.symm
-          simp only [List.cons_append, List.lookup, hk']
-          exact ih (fun p hp => hl p (List.mem_cons_of_mem _ hp))
-      exact this _ hall
-  split
-  · exact key _ rfl
-  · exact key _ rfl
+  by_cases hany : (dropPending st req).redirects.any (·.1 == req) = true
+  · simp only [hany, if_true]
+    exact lookup_of_any _ req hany
+  · simp only [hany, Bool.false_eq_true, if_false]
+    have hany' : (dropPending st req).redirects.any (·.1 == req) = false := by
+      cases hb : (dropPending st req).redirects.any (·.1 == req)
+      · rfl
+      · exact absurd hb hany
+    exact ⟨tgt, lookup_append_new _ req tgt hany'⟩
 
 /-- … and the first answer wins (`entry().or_insert`) -/
 theorem checkSpecifier_first_wins (st : St) (req tgt t0 : Spec)
     (h : st.redirects.lookup req = some t0) :
     (checkSpecifier st req tgt).redirects.lookup req = some t0 := by
-  unfold checkSpecifier
+  unfold checkSpecifier recordRedirect
   by_cases heq : (req == tgt) = true
   · simp [heq, h]
-  · have hany : st.redirects.any (·.1 == req) = true := by
-      have : ∀ l : List (Spec × Spec), l.lookup req = some t0 → l.any (·.1 == req) = true := by
-        intro l
-        induction l with
-        | nil => intro hh; simp [List.lookup] at hh
-        | cons a l ih =>
-          obtain ⟨k, v⟩ := a
-          intro hh
-          simp only [List.lookup] at hh
-          split at hh
-          · rename_i hk
-            simp only [List.any_cons, Bool.or_eq_true]
-            left
-            simp only [beq_iff_eq] at hk ⊢
-            exact hk.symm
-          · simp only [List.any_cons, Bool.or_eq_true]
-            right
-            exact ih hh
-      exact this _ h
-    simp only [heq, Bool.false_eq_true, if_false]
-    split <;> simp [hany, h]
+  · have hany : (dropPending st req).redirects.any (·.1 == req) = true := by
+      rw [redirects_dropPending]; exact any_of_lookup _ req t0 h
+    simp only [heq, Bool.false_eq_true, if_false, hany, if_true]
+    rw [redirects_dropPending]
+    exact h
+
+/-- a redirected request does not leave its pending slot behind -/
+theorem checkSpecifier_drops_pending (st : St) (req tgt : Spec) (h : req ≠ tgt) (a : Bool) :
+    (checkSpecifier st req tgt).slot req ≠ some (.pending a) := by
+  intro hs
+  unfold checkSpecifier at hs
+  have hne : (req == tgt) = false := by simpa using h
+  simp only [hne, Bool.false_eq_true, if_false] at hs
+  have hs1 : (dropPending st req).slot req = some (.pending a) := by
+    unfold recordRedirect at hs
+    split at hs <;> exact hs
+  unfold dropPending at hs1
+  split at hs1
+  · have : (erase st.slots req).lookup req = some (.pending a) := hs1
+    have herase : ∀ l : List (Spec × BSlot), (erase l req).lookup req = none := by
+      intro l
+      induction l with
+      | nil => simp [erase, List.lookup]
+      | cons x l ih =>
+        obtain ⟨k, v⟩ := x
+        unfold erase at ih ⊢
+        simp only [List.filter_cons]
+        by_cases hk : (k != req) = true
+        · have : (req == k) = false := by
+            simp only [bne_iff_ne, ne_eq] at hk
+            simp only [beq_eq_false_iff_ne, ne_eq]
+            exact fun hh => hk hh.symm
+          simp only [hk, if_true, List.lookup, this]
+          exact ih
+        · simp only [hk, Bool.false_eq_true, if_false]
+          exact ih
+    rw [herase] at this
+    cases this
+  · rename_i hnp
+    exact hnp a hs1
 
 /-! ## one entry per specifier -/
 
